@@ -15,16 +15,23 @@
 //   counter_history   stateful: a MeterProvider with 1..3 in-harness MetricReaders (temporality per
 //                     reader: delta / cumulative / delta for counters + cumulative for up-down
 //                     counters), 1..2 meters, 1..3 instrument names (Counter / UpDownCounter x
-//                     long / double) with 0..2 views each (renaming, attribute allow-lists, Sum /
-//                     Default aggregation); program over {Create (a further handle when the
-//                     instrument exists), Add(handle, value, attribute set), Collect(reader),
-//                     Destroy(handle)}.
+//                     long / double) with 0..3 views each (renaming, attribute allow-lists, Sum /
+//                     Default aggregation, for every meter or for one meter only) plus optionally a
+//                     view that selects every Counter / every UpDownCounter (name "*"); program over
+//                     {Create (a further handle when the instrument exists), Add(handle, value,
+//                     attribute set; through each of the eight Add overloads of the API header),
+//                     Collect(reader), Destroy(handle), AddReader (MeterProvider::AddMetricReader
+//                     after instruments, measurements and collections exist; up to 4 readers)}.
 //   counter_threads   the same configuration space with real threads: 1..3 recorder threads race
-//                     1..2 collector threads (every reader belongs to one collector thread); after
-//                     the join every reader collects once more.  Owns no schedule: adds evidence.
+//                     1..2 collector threads (every reader belongs to one collector thread); the
+//                     recorders use shared handles, handles they request themselves (also the FIRST
+//                     handle of an instrument, also on a meter they obtain themselves) and release
+//                     again while the others record and collect; after the join every reader
+//                     collects once more.  Owns no schedule: adds evidence.
 //   f7_witness, f8_handle_witness, f8_views_witness, f8_witness (= both F8 shapes)
-//                     fixed minimal cases of the findings F7 / F8 (no stream use); regressions once
-//                     the findings are fixed, KNOWN-FINDING witnesses while they are open.
+//                     fixed minimal cases of the findings F7 / F8 (no stream use); regressions now
+//                     that the findings are fixed.
+//   (schedule-controlled races: harness/c06_sched.cc, target meter_sched)
 // Oracle (written from the statement, independent of the SDK's storage code): per (stream,
 // attribute set after the view's allow-list) the running total of everything recorded, in exact
 // integer units (long: the value; double: multiples of 2^-10 below 2^30, so no sum ever rounds).
@@ -32,21 +39,30 @@
 //                        R's previous collection (an absent set counts as 0);
 //   cumulative reader R: the point equals the running total; a set may be absent only while its
 //                        total is 0;
-//   no series for an attribute set nobody recorded, no stream nobody configured, value alternative
-//   and temporality as configured;
+//   no series for an attribute set nobody recorded, no stream nobody configured (the stream set of
+//   an instrument on a meter = the views whose instrument and meter selectors match, else the
+//   default stream), at most one MetricData per stream and collection, value alternative and
+//   temporality as configured;
 //   timestamps: cumulative start == GetSDKStartTime(); a delta MetricData starts exactly where the
 //   previous MetricData handed to R for that stream ended (first: SDK start) - tolerated: at a time
 //   inside one of R's own Collect calls since then that delivered nothing for the stream -; never
-//   before the previous end; end >= start; start <= stamp before the first Add it contains and
-//   end >= stamp after the last Add it contains (harness stamps, same clock; skipped when the
-//   system clock was seen stepping backwards).
+//   before the previous end; end >= start; the end lies inside the Collect call that delivered the
+//   MetricData (with or without new data); start <= stamp before the first Add it contains and
+//   end >= stamp after the last Add it contains (harness stamps, same clock; inequalities are
+//   skipped when the system clock was seen stepping backwards).
+//   A reader registered late ("This reader may not receive any in-flight meter data",
+//   meter_provider.h): for a stream that already had measurements it counts from ONE of: SDK start,
+//   a collection of any reader before the registration, the registration; its first collection of
+//   the stream must be explained by one such starting point for all attribute sets together, from
+//   then on it is held to the exact oracle (cumulative: total minus that fixed starting point); its
+//   first delta interval may start anywhere from SDK start on, later ones abut.  The readers that
+//   were there before keep the exact oracle across the registration (in particular the single delta
+//   reader that leaves the fast path).
 // Either-regions: a series whose total is 0 may be reported as 0 or be absent; a delta collection
-// without new data may deliver nothing, or a MetricData without points, or zero points; several
-// MetricData of one stream in one collection are summed (their timestamps are then only checked
-// for "cumulative starts at SDK start" and end >= start).
+// without new data may deliver nothing, or a MetricData without points, or zero points.
 // Not asserted (other properties own it): which of two different values of a repeated key wins
-// (C08: a repeated key is generated with the same value), non NUL-terminated keys against an
-// allow-list (C08/F11: keys are NUL terminated here), name validation (C19).
+// (C08: a repeated key is generated with the same value), name validation (C19).  Attribute keys
+// are handed over both as NUL terminated strings and as non NUL-terminated views.
 #include <algorithm>
 #include <atomic>
 #include <chrono>
@@ -316,16 +332,17 @@ sg::KVMap filtered(const sg::KVMap &s, int filter)
 }
 
 // A KeyValueIterable over a model list.  Values live in the arena (strings as non NUL-terminated
-// views, arrays as spans); keys are NUL terminated arena copies (see the header comment).
+// views, arrays as spans); keys are NUL terminated arena copies or non NUL-terminated views.
 class TermKV final : public otel::common::KeyValueIterable
 {
 public:
-  TermKV(const sg::KVList &l, sg::Arena &a) : l_(l), a_(a) {}
+  TermKV(const sg::KVList &l, sg::Arena &a, bool terminated) : l_(l), a_(a), terminated_(terminated) {}
   bool ForEachKeyValue(nostd::function_ref<bool(nostd::string_view, otel::common::AttributeValue)> callback)
       const noexcept override
   {
     for (auto &kv : l_)
-      if (!callback(nostd::string_view(a_.cstr(kv.first), kv.first.size()), sg::to_api(kv.second, a_)))
+      if (!callback(terminated_ ? nostd::string_view(a_.cstr(kv.first), kv.first.size()) : a_.view(kv.first),
+                    sg::to_api(kv.second, a_)))
         return false;
     return true;
   }
@@ -334,6 +351,7 @@ public:
 private:
   const sg::KVList &l_;
   sg::Arena &a_;
+  bool terminated_;
 };
 
 // ------------------------------------------------------------------------------------------------
@@ -376,8 +394,16 @@ private:
 struct ViewCfg
 {
   std::string stream_name;
-  int filter   = 0;
-  bool agg_sum = false;
+  int filter    = 0;
+  bool agg_sum  = false;
+  bool rename   = false;  // the View carries a name of its own (else: the instrument's name)
+  int meter_sel = -1;     // -1: every meter, m: MeterSelector(name of meter m) only
+};
+// a view that selects every instrument of one type (name pattern "*"); it never renames
+struct WildCfg
+{
+  bool on = false;
+  ViewCfg v;
 };
 struct InstrCfg
 {
@@ -391,21 +417,29 @@ using Totals = std::map<sg::KVMap, int64_t>;
 
 struct StreamM  // one stream of one instrument of one meter
 {
-  std::string key;  // "<meter name>/<stream name>"
+  std::string key;  // "<meter name>/<stream name>#<value type><unit>"
   int instr  = 0;
   int filter = 0;
+  bool renamed = false;
   Totals total;                               // everything recorded so far, per attribute set
   std::vector<int64_t> add_before, add_after;  // harness stamps around every Add routed here
+  std::vector<Totals> cuts;                    // the totals at every Collect call of any reader so far (distinct ones)
 };
 
 struct ReaderSt  // what one reader has been handed of one stream
 {
   Totals at_prev;  // totals at this reader's previous collection
+  // A reader registered after the stream had measurements ("may not receive any in-flight meter data",
+  // MeterProvider::AddMetricReader): what it counts from is one of these candidates (SDK start, a
+  // collection of any reader before the registration, the registration itself) until its first
+  // collection of the stream decides which; from then on `base` is fixed and the oracle is exact.
+  std::vector<Totals> base_cands;
+  Totals base;
+  bool late_first = false;  // registered late, no interval delivered yet: the first delta start is either
   size_t adds_seen = 0;
   bool delivered   = false;
   int64_t prev_end = 0;
   std::vector<std::pair<int64_t, int64_t>> windows;  // own Collect calls since then that delivered nothing
-  bool dup            = false;
   unsigned deliveries = 0;
   // threads target
   Totals delta_sum, last_cum;
@@ -415,6 +449,7 @@ struct Handle
 {
   int meter = 0, instr = 0;
   bool alive = true, first = true;
+  bool deferred = false;  // threads target: no SDK object yet, every thread that uses it creates its own
   nostd::unique_ptr<om::Counter<uint64_t>> cl;
   nostd::unique_ptr<om::Counter<double>> cd;
   nostd::unique_ptr<om::UpDownCounter<int64_t>> ul;
@@ -434,6 +469,7 @@ struct World
   std::vector<std::shared_ptr<CReader>> readers;
   std::vector<int> modes;
   std::vector<InstrCfg> instrs;
+  WildCfg wild[2];  // [0] all Counters, [1] all UpDownCounters
   unsigned n_meters = 1;
   std::vector<nostd::shared_ptr<om::Meter>> meters;
   std::vector<StreamM> streams;
@@ -443,6 +479,7 @@ struct World
   std::vector<std::unique_ptr<Handle>> handles;
   HClock clk;
   std::string cfgtxt;
+  bool late_on_data = false;  // a reader was registered when a stream already had measurements
 };
 
 std::string meter_name(int m)
@@ -452,7 +489,7 @@ std::string meter_name(int m)
 
 // decode the provider configuration.  Everything at choice 0: one delta reader (the fast path), one
 // meter, one Counter<uint64> without views.
-void make_world(vh::Case &c, World &w)
+void make_world(vh::Case &c, World &w, bool only_meter0 = false)
 {
   vh::Reader &rd = c.rd;
   quiet_logs();
@@ -467,7 +504,6 @@ void make_world(vh::Case &c, World &w)
   }
   w.n_meters       = rd.chance(20) ? 2 : 1;
   unsigned n_instr = 1 + static_cast<unsigned>(rd.weighted({5, 3, 2}));
-  std::unique_ptr<sdkm::ViewRegistry> reg(new sdkm::ViewRegistry);
   for (unsigned i = 0; i < n_instr; ++i)
   {
     InstrCfg in;
@@ -505,37 +541,97 @@ void make_world(vh::Case &c, World &w)
     {
       ViewCfg vc;
       // the streams of one instrument (and of different instruments) never share a name
-      bool rename    = v > 0 || rd.coin();
-      vc.stream_name = rename ? in.name + "_v" + std::to_string(v) : in.name;
+      vc.rename      = v > 0 || rd.coin();
+      vc.stream_name = vc.rename ? in.name + "_v" + std::to_string(v) : in.name;
       vc.filter      = static_cast<int>(rd.weighted({5, 2, 2, 1}));
       vc.agg_sum     = rd.coin();
       in.views.push_back(vc);
-      std::unique_ptr<sdkm::AttributesProcessor> proc;
-      if (vc.filter == 0)
-        proc.reset(new sdkm::DefaultAttributesProcessor);
-      else
-      {
-        std::unordered_map<std::string, bool> allow;
-        if (vc.filter == 1 || vc.filter == 2)
-          allow["k0"] = true;
-        if (vc.filter == 2)
-          allow["k1"] = true;
-        proc.reset(new sdkm::FilteringAttributesProcessor(allow));
-      }
-      reg->AddView(std::unique_ptr<sdkm::InstrumentSelector>(new sdkm::InstrumentSelector(itype(in.kind), in.name, "")),
-                   std::unique_ptr<sdkm::MeterSelector>(new sdkm::MeterSelector("", "", "")),
-                   std::unique_ptr<sdkm::View>(new sdkm::View(
-                       rename ? vc.stream_name : std::string(), "", "",
-                       vc.agg_sum ? sdkm::AggregationType::kSum : sdkm::AggregationType::kDefault, nullptr,
-                       std::move(proc))));
     }
-    w.cfgtxt += "instrument " + in.name + (in.unit.empty() ? "" : "[" + in.unit + "]") + ": " + kind_name(in.kind);
-    for (auto &vc : in.views)
-      w.cfgtxt += " view{as " + vc.stream_name + " filter=" + std::to_string(vc.filter) +
-                  (vc.agg_sum ? " sum" : " default") + "}";
-    w.cfgtxt += "\n";
     w.instrs.push_back(in);
   }
+  // ---- later additions to the configuration space; a zero byte each = the shapes above
+  // (a) a view that selects every Counter / every UpDownCounter (name "*"): it keeps the instrument's
+  //     name, so the own views of the instruments it matches all rename
+  size_t wild_sel = rd.weighted({7, 1, 1, 1});
+  for (int t = 0; t < 2; ++t)
+    if (wild_sel == static_cast<size_t>(t + 1) || wild_sel == 3)
+    {
+      w.wild[t].on          = true;
+      w.wild[t].v.filter    = static_cast<int>(rd.weighted({5, 2, 2, 1}));
+      w.wild[t].v.agg_sum   = rd.coin();
+      w.wild[t].v.meter_sel = static_cast<int>(rd.weighted({6, 2, 2})) - 1;
+      c.tag("view-selects-all-instruments-of-a-type");
+    }
+  for (auto &in : w.instrs)
+  {
+    // (b) a third view
+    if (in.views.size() == 2 && rd.chance(30))
+    {
+      ViewCfg vc;
+      vc.rename      = true;
+      vc.stream_name = in.name + "_v2";
+      vc.filter      = static_cast<int>(rd.weighted({5, 2, 2, 1}));
+      vc.agg_sum     = rd.coin();
+      in.views.push_back(vc);
+    }
+    for (auto &vc : in.views)
+    {
+      // (c) a view for one meter only: the same instrument has different streams on m0 and m1
+      if (rd.chance(25))
+      {
+        vc.meter_sel = static_cast<int>(rd.below(2));
+        c.tag("view-for-one-meter-only");
+      }
+      if (w.wild[is_updown(in.kind) ? 1 : 0].on && !vc.rename)
+      {
+        vc.rename      = true;
+        vc.stream_name = in.name + "_v0";
+      }
+    }
+  }
+  std::unique_ptr<sdkm::ViewRegistry> reg(new sdkm::ViewRegistry);
+  auto add_view = [&](sdkm::InstrumentType type, const std::string &name_pattern, const ViewCfg &vc) {
+    std::unique_ptr<sdkm::AttributesProcessor> proc;
+    if (vc.filter == 0)
+      proc.reset(new sdkm::DefaultAttributesProcessor);
+    else
+    {
+      std::unordered_map<std::string, bool> allow;
+      if (vc.filter == 1 || vc.filter == 2)
+        allow["k0"] = true;
+      if (vc.filter == 2)
+        allow["k1"] = true;
+      proc.reset(new sdkm::FilteringAttributesProcessor(allow));
+    }
+    reg->AddView(std::unique_ptr<sdkm::InstrumentSelector>(new sdkm::InstrumentSelector(type, name_pattern, "")),
+                 std::unique_ptr<sdkm::MeterSelector>(
+                     new sdkm::MeterSelector(vc.meter_sel < 0 ? std::string() : meter_name(vc.meter_sel), "", "")),
+                 std::unique_ptr<sdkm::View>(new sdkm::View(
+                     vc.rename ? vc.stream_name : std::string(), "", "",
+                     vc.agg_sum ? sdkm::AggregationType::kSum : sdkm::AggregationType::kDefault, nullptr,
+                     std::move(proc))));
+  };
+  auto show_view = [](const ViewCfg &vc) {
+    return " view{as " + (vc.stream_name.empty() ? std::string("<instrument name>") : vc.stream_name) +
+           " filter=" + std::to_string(vc.filter) + (vc.agg_sum ? " sum" : " default") +
+           (vc.meter_sel < 0 ? std::string() : " only-" + meter_name(vc.meter_sel)) + "}";
+  };
+  for (auto &in : w.instrs)
+  {
+    w.cfgtxt += "instrument " + in.name + (in.unit.empty() ? "" : "[" + in.unit + "]") + ": " + kind_name(in.kind);
+    for (auto &vc : in.views)
+    {
+      add_view(itype(in.kind), in.name, vc);
+      w.cfgtxt += show_view(vc);
+    }
+    w.cfgtxt += "\n";
+  }
+  for (int t = 0; t < 2; ++t)
+    if (w.wild[t].on)
+    {
+      add_view(t ? sdkm::InstrumentType::kUpDownCounter : sdkm::InstrumentType::kCounter, "*", w.wild[t].v);
+      w.cfgtxt += std::string("every ") + (t ? "UpDownCounter" : "Counter") + ":" + show_view(w.wild[t].v) + "\n";
+    }
   w.ctor_before = w.clk.now();
   std::unique_ptr<sdkm::MeterContext> ctx(new sdkm::MeterContext(std::move(reg), the_resource()));
   sdkm::MeterContext *ctxp = ctx.get();
@@ -549,7 +645,7 @@ void make_world(vh::Case &c, World &w)
     w.cfgtxt += "reader" + std::to_string(r) + ": " + mode_name(w.modes[r]) + "\n";
   }
   w.rs.resize(n_readers);
-  for (unsigned m = 0; m < w.n_meters; ++m)
+  for (unsigned m = 0; m < (only_meter0 ? 1u : w.n_meters); ++m)
     w.meters.push_back(w.provider->GetMeter(meter_name(static_cast<int>(m)), "1.0", ""));
   w.cfgtxt += "meters: " + std::to_string(w.n_meters) + "\n";
 
@@ -565,14 +661,14 @@ void make_world(vh::Case &c, World &w)
 
 // create one more handle for (meter, instr); the first one instantiates the model streams
 // the SDK call only (used by the threads too)
-std::unique_ptr<Handle> sdk_create(const World &w, int m, int i)
+std::unique_ptr<Handle> sdk_create(const World &w, int m, int i, om::Meter *own_meter = nullptr)
 {
   const InstrCfg &in = w.instrs[static_cast<size_t>(i)];
   std::unique_ptr<Handle> h(new Handle);
   h->meter = m;
   h->instr = i;
   h->first = false;
-  om::Meter &meter = *w.meters[static_cast<size_t>(m)];
+  om::Meter &meter = own_meter ? *own_meter : *w.meters[static_cast<size_t>(m)];
   switch (in.kind)
   {
     case kCtrLong:
@@ -591,15 +687,38 @@ std::unique_ptr<Handle> sdk_create(const World &w, int m, int i)
   return h;
 }
 
-Handle *create_handle(vh::Case &c, World &w, int m, int i)
+// deferred: only the model streams are set up now; the instrument itself is created later (by the first
+// recorder thread that needs it, while collectors run) - the handle stays empty
+Handle *create_handle(vh::Case &c, World &w, int m, int i, bool deferred = false)
 {
-  const InstrCfg &in        = w.instrs[static_cast<size_t>(i)];
-  std::unique_ptr<Handle> h = sdk_create(w, m, i);
-  h->first                  = w.streams_of.find({m, i}) == w.streams_of.end();
-  VH_CHECK(c, h->cl || h->cd || h->ul || h->ud, "Create" << kind_name(in.kind) << "('" << in.name << "') returned null");
+  const InstrCfg &in = w.instrs[static_cast<size_t>(i)];
+  std::unique_ptr<Handle> h;
+  if (deferred)
+  {
+    h.reset(new Handle);
+    h->meter    = m;
+    h->instr    = i;
+    h->deferred = true;
+  }
+  else
+  {
+    h = sdk_create(w, m, i);
+    VH_CHECK(c, h->cl || h->cd || h->ul || h->ud, "Create" << kind_name(in.kind) << "('" << in.name << "') returned null");
+  }
+  h->first = w.streams_of.find({m, i}) == w.streams_of.end();
   if (h->first)
   {
-    std::vector<ViewCfg> vs = in.views;
+    // the views that select this instrument on this meter; none: the default stream
+    std::vector<ViewCfg> vs;
+    for (auto &vc : in.views)
+      if (vc.meter_sel < 0 || vc.meter_sel == m)
+        vs.push_back(vc);
+    const WildCfg &wc = w.wild[is_updown(in.kind) ? 1 : 0];
+    if (wc.on && (wc.v.meter_sel < 0 || wc.v.meter_sel == m))
+    {
+      vs.push_back(wc.v);
+      vs.back().stream_name = in.name;
+    }
     if (vs.empty())
     {
       ViewCfg d;
@@ -612,8 +731,9 @@ Handle *create_handle(vh::Case &c, World &w, int m, int i)
       // the value type is part of the stream key: two instruments of one meter may share a name and
       // differ in value type only (they are different instruments, each with its own stream)
       s.key    = meter_name(m) + "/" + vc.stream_name + (is_double(in.kind) ? "#d" : "#l") + in.unit;
-      s.instr  = i;
-      s.filter = vc.filter;
+      s.instr   = i;
+      s.filter  = vc.filter;
+      s.renamed = vc.stream_name != in.name;
       w.by_key[s.key] = w.streams.size();
       w.streams_of[{m, i}].push_back(w.streams.size());
       w.streams.push_back(s);
@@ -626,41 +746,127 @@ Handle *create_handle(vh::Case &c, World &w, int m, int i)
 }
 
 // the API call only (used by the threads too): storage of keys and values dies when Add returns
-void api_add(Handle &h, int kind, int64_t units, const sg::KVList &list, unsigned form)
+constexpr unsigned kAddForms = 8;
+const char *add_form_name(unsigned form, bool empty_list)
 {
-  sg::Arena arena;
-  TermKV kv(list, arena);
-  otel::context::Context ctx{};
-  const otel::common::KeyValueIterable &kvi = kv;
-  // form: 0 Add(v, attrs), 1 Add(v, attrs, ctx), 2 Add(v) [empty set only], 3 Add(v, ctx) [empty set only]
-  if (!list.empty() && form >= 2)
+  static const char *n[] = {"Add(v,KeyValueIterable)",     "Add(v,KeyValueIterable,ctx)", "Add(v)",
+                            "Add(v,ctx)",                  "Add(v,std::map)",             "Add(v,vector<pair>,ctx)",
+                            "Add(v,{initializer-list})",   "Add(v,{initializer-list},ctx)"};
+  if (!empty_list && (form == 2 || form == 3))
     form -= 2;
-  switch (kind)
+  return n[form % kAddForms];
+}
+
+template <class Instr, class V>
+void add_in_form(Instr &ins, V v, const sg::KVList &list, unsigned form, sg::Arena &arena)
+{
+  using AV = otel::common::AttributeValue;
+  using P  = std::pair<nostd::string_view, AV>;
+  otel::context::Context ctx{};
+  // form: 0 Add(v, attrs), 1 Add(v, attrs, ctx), 2 Add(v) [empty set only], 3 Add(v, ctx) [empty set only],
+  // 4..7 the non-virtual template overloads of the API header (sync_instruments.h): a container of pairs
+  // (std::map: sorted, a repeated key collapses - the same attribute set), a vector of pairs + Context,
+  // an initializer list (which goes through nostd::span<const pair>) without and with Context
+  if (!list.empty() && (form == 2 || form == 3))
+    form -= 2;
+  switch (form % kAddForms)
   {
-    case kCtrLong:
+    case 0:
     {
-      uint64_t v = static_cast<uint64_t>(units);
-      form == 0 ? h.cl->Add(v, kvi) : form == 1 ? h.cl->Add(v, kvi, ctx) : form == 2 ? h.cl->Add(v) : h.cl->Add(v, ctx);
+      TermKV kv(list, arena, /*terminated keys*/ true);
+      const otel::common::KeyValueIterable &kvi = kv;
+      ins.Add(v, kvi);
       break;
     }
-    case kCtrDouble:
+    case 1:
     {
-      double v = units_to_double(units);
-      form == 0 ? h.cd->Add(v, kvi) : form == 1 ? h.cd->Add(v, kvi, ctx) : form == 2 ? h.cd->Add(v) : h.cd->Add(v, ctx);
+      TermKV kv(list, arena, false);
+      const otel::common::KeyValueIterable &kvi = kv;
+      ins.Add(v, kvi, ctx);
       break;
     }
-    case kUdLong:
+    case 2:
+      ins.Add(v);
+      break;
+    case 3:
+      ins.Add(v, ctx);
+      break;
+    case 4:
     {
-      int64_t v = units;
-      form == 0 ? h.ul->Add(v, kvi) : form == 1 ? h.ul->Add(v, kvi, ctx) : form == 2 ? h.ul->Add(v) : h.ul->Add(v, ctx);
+      std::map<std::string, AV> m;
+      for (auto &kv : list)
+        m.emplace(kv.first, sg::to_api(kv.second, arena));
+      ins.Add(v, m);
       break;
     }
     default:
     {
-      double v = units_to_double(units);
-      form == 0 ? h.ud->Add(v, kvi) : form == 1 ? h.ud->Add(v, kvi, ctx) : form == 2 ? h.ud->Add(v) : h.ud->Add(v, ctx);
+      std::vector<P> ps;
+      for (auto &kv : list)
+        ps.emplace_back(arena.view(kv.first), sg::to_api(kv.second, arena));
+      if (form % kAddForms == 5)
+        ins.Add(v, ps, ctx);
+      else if (form % kAddForms == 6)
+        switch (ps.size())
+        {
+          case 0:
+            ins.Add(v, std::initializer_list<P>{});
+            break;
+          case 1:
+            ins.Add(v, std::initializer_list<P>{ps[0]});
+            break;
+          case 2:
+            ins.Add(v, std::initializer_list<P>{ps[0], ps[1]});
+            break;
+          case 3:
+            ins.Add(v, std::initializer_list<P>{ps[0], ps[1], ps[2]});
+            break;
+          default:
+            // (longer than any literal list here: the span the initializer-list overload forwards to)
+            ins.Add(v, nostd::span<const P>(ps.data(), ps.size()));
+            break;
+        }
+      else
+        switch (ps.size())
+        {
+          case 0:
+            ins.Add(v, std::initializer_list<P>{}, ctx);
+            break;
+          case 1:
+            ins.Add(v, std::initializer_list<P>{ps[0]}, ctx);
+            break;
+          case 2:
+            ins.Add(v, std::initializer_list<P>{ps[0], ps[1]}, ctx);
+            break;
+          case 3:
+            ins.Add(v, std::initializer_list<P>{ps[0], ps[1], ps[2]}, ctx);
+            break;
+          default:
+            ins.Add(v, nostd::span<const P>(ps.data(), ps.size()), ctx);
+            break;
+        }
       break;
     }
+  }
+}
+
+void api_add(Handle &h, int kind, int64_t units, const sg::KVList &list, unsigned form)
+{
+  sg::Arena arena;
+  switch (kind)
+  {
+    case kCtrLong:
+      add_in_form(*h.cl, static_cast<uint64_t>(units), list, form, arena);
+      break;
+    case kCtrDouble:
+      add_in_form(*h.cd, units_to_double(units), list, form, arena);
+      break;
+    case kUdLong:
+      add_in_form(*h.ul, units, list, form, arena);
+      break;
+    default:
+      add_in_form(*h.ud, units_to_double(units), list, form, arena);
+      break;
   }
   arena.release();
 }
@@ -775,17 +981,37 @@ StreamReport read_stream(vh::Case &c, const World &w, const StreamM &s, const st
   return rep;
 }
 
-// timestamps of one delivered MetricData against the reader's history for the stream
+// timestamps of one delivered MetricData against the reader's history for the stream; [t0, t1] are the
+// harness stamps around the Collect call that delivered it
 void check_times(vh::Case &c, const World &w, const StreamM &s, ReaderSt &st, const sdkm::MetricData &md, bool delta,
-                 bool stepped, bool check_adds, const std::string &who)
+                 bool stepped, bool check_adds, const std::string &who, int64_t t0, int64_t t1)
 {
   int64_t start = ns_of(md.start_ts), end = ns_of(md.end_ts);
   if (!stepped)
+  {
     VH_CHECK(c, end >= start, who << ": interval ends before it starts (start " << start << " end " << end << ")");
+    // The interval ends at the collection.  A measurement that returned just before the Collect call is in
+    // this interval, one recorded just after the call returned is in the next one, which starts where this
+    // one ends: the end lies inside the call - also when the collection carries nothing new.
+    VH_CHECK(c, t0 <= end && end <= t1, who << ": the interval ends at " << end << ", "
+                                            << (end < t0 ? t0 - end : end - t1) << " ns "
+                                            << (end < t0 ? "before the Collect call that delivered it began"
+                                                         : "after the Collect call that delivered it returned")
+                                            << " (call [" << t0 << ", " << t1 << "], start " << start << ")");
+  }
+  bool late_first = st.late_first;
   if (!delta)
   {
     VH_CHECK(c, start == w.sdk_start, who << ": cumulative point starts at " << start << " (SDK start is " << w.sdk_start
                                           << ", difference " << (start - w.sdk_start) << " ns)");
+  }
+  else if (late_first)
+  {
+    // the first interval of a reader that was registered when the stream already existed: it may start
+    // at SDK start or at any later time up to its end (either-region)
+    if (!stepped)
+      VH_CHECK(c, start >= w.sdk_start, who << ": the first delta interval of the late reader starts "
+                                            << (w.sdk_start - start) << " ns before SDK start");
   }
   else
   {
@@ -803,15 +1029,23 @@ void check_times(vh::Case &c, const World &w, const StreamM &s, ReaderSt &st, co
   if (check_adds && !stepped && st.adds_seen < s.add_before.size())
   {
     size_t first = delta ? st.adds_seen : 0, last = s.add_before.size() - 1;
-    VH_CHECK(c, start <= s.add_before[first], who << ": the interval starts " << (start - s.add_before[first])
-                                                  << " ns after the first measurement it contains was recorded");
+    if (!(delta && late_first))
+      VH_CHECK(c, start <= s.add_before[first], who << ": the interval starts " << (start - s.add_before[first])
+                                                    << " ns after the first measurement it contains was recorded");
     VH_CHECK(c, end >= s.add_after[last], who << ": the interval ends " << (s.add_after[last] - end)
                                               << " ns before the last measurement it contains was recorded");
   }
-  st.prev_end  = end;
-  st.delivered = true;
+  st.prev_end   = end;
+  st.delivered  = true;
+  st.late_first = false;
   st.windows.clear();
   ++st.deliveries;
+}
+
+int64_t total_of(const Totals &t, const sg::KVMap &set)
+{
+  auto it = t.find(set);
+  return it == t.end() ? 0 : it->second;
 }
 
 // the sequential oracle: reader r has just collected `got` during [t0, t1]
@@ -829,53 +1063,85 @@ void check_collect(vh::Case &c, World &w, unsigned r, const std::vector<Got> &go
     std::string who    = "reader" + std::to_string(r) + "(" + (delta ? "delta" : "cumulative") + ") stream " + s.key +
                       " [" + kind_name(in.kind) + "]";
     StreamReport rep = read_stream(c, w, s, got, delta, who);
-    bool new_data    = st.adds_seen < s.add_before.size();
-    for (auto &t : s.total)
+    // the streams of a configuration differ pairwise in scope / name / value type / unit: one stream is one
+    // MetricData per collection (two would be two interval chains for one stream)
+    VH_CHECK(c, rep.n_md <= 1, who << ": " << rep.n_md << " MetricData for this one stream in one collection");
+    bool new_data = st.adds_seen < s.add_before.size();
+    if (!st.base_cands.empty())
     {
-      auto it      = rep.reported.find(t.first);
-      int64_t have = it == rep.reported.end() ? 0 : it->second;
-      bool present = rep.present.count(t.first) != 0;
-      if (delta)
+      // first collection of a stream that had measurements when this reader was registered: which of the
+      // admissible starting points explains what it got?  (all sets of the stream, one starting point)
+      std::vector<Totals> fit;
+      std::string tried;
+      for (auto &cand : st.base_cands)
       {
-        auto pit     = st.at_prev.find(t.first);
-        int64_t want = t.second - (pit == st.at_prev.end() ? 0 : pit->second);
-        VH_CHECK(c, have == want, who << " set " << show_set(t.first) << ": this collection reports "
-                                      << (present ? show_units(have, in.kind) : std::string("nothing")) << " but "
-                                      << show_units(want, in.kind)
-                                      << " was recorded since this reader's previous collection (running total "
-                                      << show_units(t.second, in.kind) << ", " << rep.n_md << " MetricData)");
+        bool ok = true;
+        for (auto &t : s.total)
+          ok = ok && total_of(rep.reported, t.first) == t.second - total_of(cand, t.first) &&
+               (delta || rep.present.count(t.first) || t.second == total_of(cand, t.first));
+        if (ok)
+          fit.push_back(cand);
       }
-      else if (present)
+      if (fit.empty())
       {
-        VH_CHECK(c, have == t.second, who << " set " << show_set(t.first) << ": reports " << show_units(have, in.kind)
-                                          << " but the running total is " << show_units(t.second, in.kind));
-      }
-      else
-      {
-        VH_CHECK(c, t.second == 0, who << " set " << show_set(t.first) << ": absent although the running total is "
-                                       << show_units(t.second, in.kind) << " (" << rep.n_md << " MetricData for the stream)");
-      }
-    }
-    st.at_prev = s.total;
-    if (rep.n_md > 1)
-    {
-      st.dup = true;
-      c.tag("several-metricdata-for-one-stream");
-    }
-    if (rep.n_md >= 1 && st.dup)
-    {
-      for (auto &g : got)
-        if (g.key == s.key)
+        std::string sets;
+        for (auto &t : s.total)
         {
-          if (!delta)
-            VH_CHECK(c, ns_of(g.md.start_ts) == w.sdk_start, who << ": cumulative point does not start at SDK start");
-          if (!w.clk.stepped)
-            VH_CHECK(c, ns_of(g.md.end_ts) >= ns_of(g.md.start_ts), who << ": interval ends before it starts");
+          sets += " " + show_set(t.first) + ": got " +
+                  (rep.present.count(t.first) ? show_units(total_of(rep.reported, t.first), in.kind) : std::string("nothing")) +
+                  ", total now " + show_units(t.second, in.kind) + ", admissible:";
+          std::set<int64_t> vals;
+          for (auto &cand : st.base_cands)
+            vals.insert(t.second - total_of(cand, t.first));
+          for (int64_t v : vals)
+            sets += " " + show_units(v, in.kind);
+          sets += ";";
         }
+        VH_CHECK(c, false, who << ": first collection of a reader registered after the stream had measurements: no "
+                               << "single starting point (SDK start, a collection before the registration, the "
+                               << "registration) explains it -" << sets);
+      }
+      st.base = fit.front();
+      st.base_cands.clear();
+      st.at_prev = s.total;  // (checked above)
+      bool from_start = true;
+      for (auto &b : st.base)
+        from_start = from_start && b.second == 0;
+      c.tag(from_start ? "late-reader-counts-from-sdk-start" : "late-reader-counts-from-a-later-point");
     }
-    else if (rep.md)
+    else
     {
-      check_times(c, w, s, st, *rep.md, delta, w.clk.stepped, true, who);
+      for (auto &t : s.total)
+      {
+        int64_t have = total_of(rep.reported, t.first);
+        bool present = rep.present.count(t.first) != 0;
+        if (delta)
+        {
+          int64_t want = t.second - total_of(st.at_prev, t.first);
+          VH_CHECK(c, have == want, who << " set " << show_set(t.first) << ": this collection reports "
+                                        << (present ? show_units(have, in.kind) : std::string("nothing")) << " but "
+                                        << show_units(want, in.kind)
+                                        << " was recorded since this reader's previous collection (running total "
+                                        << show_units(t.second, in.kind) << ", " << rep.n_md << " MetricData)");
+        }
+        else
+        {
+          // the running total since SDK start (a late reader: since its fixed starting point)
+          int64_t want = t.second - total_of(st.base, t.first);
+          if (present)
+            VH_CHECK(c, have == want, who << " set " << show_set(t.first) << ": reports " << show_units(have, in.kind)
+                                          << " but the running total is " << show_units(want, in.kind)
+                                          << (st.base.empty() ? "" : " (counted from this late reader's starting point)"));
+          else
+            VH_CHECK(c, want == 0, who << " set " << show_set(t.first) << ": absent although the running total is "
+                                       << show_units(want, in.kind) << " (" << rep.n_md << " MetricData for the stream)");
+        }
+      }
+      st.at_prev = s.total;
+    }
+    if (rep.md)
+    {
+      check_times(c, w, s, st, *rep.md, delta, w.clk.stepped, true, who, t0, t1);
       if (delta && rep.n_points == 0)
         c.tag("delta-delivery-without-points");
     }
@@ -884,7 +1150,42 @@ void check_collect(vh::Case &c, World &w, unsigned r, const std::vector<Got> &go
     if (!new_data && !s.add_before.empty())
       c.tag(delta ? "delta-collect-without-new-data" : "cumulative-resend-without-new-data");
     st.adds_seen = s.add_before.size();
+    if (s.cuts.empty() || s.cuts.back() != s.total)
+      s.cuts.push_back(s.total);
   }
+}
+
+// MeterProvider::AddMetricReader after instruments (and measurements, and collections) exist
+unsigned add_late_reader(vh::Case &c, World &w, int mode)
+{
+  unsigned r = static_cast<unsigned>(w.readers.size());
+  w.modes.push_back(mode);
+  w.readers.emplace_back(new CReader(mode));
+  w.provider->AddMetricReader(w.readers.back());
+  w.rs.emplace_back();
+  for (auto &s : w.streams)
+  {
+    ReaderSt st;
+    bool any = false;
+    for (auto &t : s.total)
+      any = any || t.second != 0;
+    if (!s.add_before.empty())
+    {
+      st.late_first = true;
+      st.adds_seen  = s.add_before.size();
+      if (any || !s.cuts.empty())
+      {
+        st.base_cands.push_back(Totals());  // everything since SDK start
+        for (auto &cut : s.cuts)
+          st.base_cands.push_back(cut);      // since a collection of some reader
+        st.base_cands.push_back(s.total);    // since the registration
+        c.tag("late-reader-on-stream-with-measurements");
+        w.late_on_data = true;
+      }
+    }
+    w.rs.back().push_back(st);
+  }
+  return r;
 }
 
 void check_sdk_start(vh::Case &c, World &w)
@@ -909,8 +1210,10 @@ void teardown(World &w)
 VH_TARGET(counter_history, 6,
           "a history is non-trivial when (A) readers whose temporalities differ for an instrument in use both "
           "collected after a measurement, or (B) a Collect falls between two Adds to the same (stream, attribute "
-          "set), or (C) the single-delta-reader configuration delivered data in >= 2 collections; distinct = "
-          "distinct (configuration, program) text")
+          "set), or (C) the single-delta-reader configuration delivered data in >= 2 collections, or (D) a reader "
+          "was registered (AddMetricReader) when a stream already had measurements - every reader collects at the "
+          "end, so old and new readers are checked across that registration; distinct = distinct (configuration, "
+          "program) text")
 {
   vh::Reader &rd = c.rd;
   World w;
@@ -927,7 +1230,10 @@ VH_TARGET(counter_history, 6,
   unsigned max_ops = 4 + rd.below(44);
   for (unsigned op = 0; op < max_ops && (op < 3 || !rd.exhausted()); ++op)
   {
-    size_t kind = w.handles.empty() ? 2 : rd.weighted({52, 30, 12, 6});
+    // (AddReader was appended later: the weights before it keep their byte ranges)
+    size_t kind = w.handles.empty() ? 2 : rd.weighted({52, 30, 12, 6, 4});
+    if (kind == 4 && w.readers.size() >= 4)
+      kind = 1;
     std::vector<Handle *> alive;
     for (auto &h : w.handles)
       if (h->alive)
@@ -936,6 +1242,25 @@ VH_TARGET(counter_history, 6,
       kind = 2;
     if (kind == 3 && alive.empty())
       kind = 1;
+    if (kind == 4)
+    {
+      // a further reader joins a provider that already has instruments (and, usually, measurements and
+      // collections by the older readers)
+      int mode   = static_cast<int>(rd.weighted({4, 4, 2}));
+      bool alone = w.readers.size() == 1 && w.modes[0] != 1;
+      bool had_deliveries = false;
+      for (auto &per_reader : w.rs)
+        for (auto &st : per_reader)
+          had_deliveries = had_deliveries || st.deliveries > 0;
+      unsigned r = add_late_reader(c, w, mode);
+      c.note("reader" + std::to_string(r) + " = AddMetricReader(" + mode_name(mode) + ")   # late\n");
+      c.tag("reader-added-late");
+      c.tag(std::string("late-reader-") + mode_letter(mode));
+      if (alone)
+        c.tag(had_deliveries ? "single-delta-reader-gets-company-after-deliveries(fast-path->multi-reader-path)"
+                             : "single-delta-reader-gets-company-before-deliveries");
+      continue;
+    }
     if (kind == 2)
     {
       // Create: names come from the small pool, so an existing instrument is asked for again
@@ -954,13 +1279,17 @@ VH_TARGET(counter_history, 6,
       kinds_in_use.insert(w.instrs[static_cast<size_t>(i)].kind);
       c.tag(std::string("create-") + kind_tag(w.instrs[static_cast<size_t>(i)].kind));
       c.tag("instrument-views-" + std::to_string(w.instrs[static_cast<size_t>(i)].views.size()));
-      for (auto &vc : w.instrs[static_cast<size_t>(i)].views)
+      c.tag("instrument-streams-on-this-meter-" + std::to_string(w.streams_of[{m, i}].size()));
+      for (size_t si : w.streams_of[{m, i}])
       {
-        if (vc.filter)
+        if (w.streams[si].filter)
           c.tag("view-attribute-filter");
-        if (vc.stream_name != w.instrs[static_cast<size_t>(i)].name)
+        if (w.streams[si].renamed)
           c.tag("view-renames-stream");
       }
+      if (w.n_meters == 2 && w.streams_of.count({1 - m, i}) &&
+          w.streams_of[{1 - m, i}].size() != w.streams_of[{m, i}].size())
+        c.tag("same-instrument-different-stream-sets-on-two-meters");
       if (!h->first)
         c.tag("second-handle-same-instrument");
       if (w.n_meters == 2 && w.streams_of.count({1 - m, i}))
@@ -976,11 +1305,10 @@ VH_TARGET(counter_history, 6,
       const InstrCfg &in = w.instrs[static_cast<size_t>(h.instr)];
       int64_t units      = gen_units(rd, in.kind);
       GenAttrs a         = gen_attrs(rd);
-      unsigned form      = rd.below(4);
+      unsigned form      = rd.below(kAddForms);
       c.note("h" + std::to_string(hi) + ".Add(" + show_units(units, in.kind) + ", " + sg::show_kvlist(a.list) +
-             (a.list.empty() ? (form >= 2 ? (form == 2 ? ") [no attrs]" : ", ctx) [no attrs]") : (form ? ", ctx)" : ")"))
-                             : ((form & 1) ? ", ctx)" : ")")) +
-             "\n");
+             ")   as " + add_form_name(form, a.list.empty()) + "\n");
+      c.tag(std::string("form-") + add_form_name(form, a.list.empty()));
       int64_t tb = w.clk.now();
       api_add(h, in.kind, units, a.list, form);
       int64_t ta = w.clk.now();
@@ -1086,6 +1414,11 @@ VH_TARGET(counter_history, 6,
         c.nontrivial = true;
         c.tag("rule-C-single-delta-reader-2+-deliveries");
       }
+  if (w.late_on_data)
+  {
+    c.nontrivial = true;
+    c.tag("rule-D-reader-registered-after-measurements");
+  }
   if (w.clk.stepped)
     c.tag("system-clock-stepped-back");
   (void)n_collect;
@@ -1103,6 +1436,7 @@ struct RecStep
   GenAttrs attrs;
   unsigned reps, form, yield_every;
   bool fresh_handle;  // the thread asks the meter for the instrument again and records through that handle
+  bool drop_after;    // ... and releases that handle right after the step
 };
 struct Collection
 {
@@ -1119,24 +1453,36 @@ void spin_pause(unsigned n)
 }  // namespace
 
 VH_TARGET(counter_threads, 6,
-          "1..3 recorder threads race 1..2 collector threads, then every reader collects once more; a case is "
+          "1..3 recorder threads (recording through shared handles, through handles they request themselves - also "
+          "the first handle of an instrument, on a meter they obtain themselves - and release again) race 1..2 "
+          "collector threads, then every reader collects once more; a case is "
           "non-trivial when some collection that ran concurrently with the recorders saw a partial result (a "
           "cumulative value strictly between 0 and the final total, or data in >= 2 delta collections of one "
           "stream); distinct = distinct (configuration, thread programs) text")
 {
   vh::Reader &rd = c.rd;
   World w;
-  make_world(c, w);
+  make_world(c, w, /*only_meter0=*/true);
   c.note(w.cfgtxt);
   check_sdk_start(c, w);
-  // handles: every instrument on meter 0 (and sometimes on meter 1), sometimes twice
+  // the second meter: obtained now, or by the recorder threads themselves (GetMeter racing Collect)
+  bool lazy_m1 = w.n_meters == 2 && rd.chance(40);
+  if (w.n_meters == 2 && !lazy_m1)
+    w.meters.push_back(w.provider->GetMeter(meter_name(1), "1.0", ""));
+  if (lazy_m1)
+    c.tag("meter-obtained-while-collectors-run");
+  // handles: every instrument on meter 0 (and sometimes on meter 1), sometimes twice; some instruments are
+  // only created by the recorder threads (first registration of a storage racing Meter::Collect)
   for (size_t i = 0; i < w.instrs.size(); ++i)
     for (unsigned m = 0; m < w.n_meters; ++m)
     {
       if (m == 1 && !rd.coin())
         continue;
-      create_handle(c, w, static_cast<int>(m), static_cast<int>(i));
-      if (rd.chance(35))
+      bool deferred = (m == 1 && lazy_m1) || rd.chance(25);
+      create_handle(c, w, static_cast<int>(m), static_cast<int>(i), deferred);
+      if (deferred)
+        c.tag("instrument-created-while-collectors-run");
+      else if (rd.chance(35))
       {
         if (vh::excluded("F8"))
           vh::count_excluded("F8");
@@ -1149,8 +1495,9 @@ VH_TARGET(counter_threads, 6,
     }
   std::string txt = "handles:";
   for (auto &h : w.handles)
-    txt += " " + meter_name(h->meter) + "." + w.instrs[static_cast<size_t>(h->instr)].name;
-  txt += "\n";
+    txt += " " + meter_name(h->meter) + "." + w.instrs[static_cast<size_t>(h->instr)].name +
+           (h->deferred ? "(created by the threads)" : "");
+  txt += lazy_m1 ? "  [m1 obtained by the threads]\n" : "\n";
 
   unsigned ncol = w.readers.size() >= 2 && rd.chance(50) ? 2 : 1;
   std::vector<unsigned> rounds(ncol), pause(ncol);
@@ -1174,7 +1521,7 @@ VH_TARGET(counter_threads, 6,
         s.units = -s.units;
       s.attrs       = gen_attrs(rd);
       s.reps        = 1 + rd.below(60);
-      s.form        = rd.below(4);
+      s.form        = rd.below(kAddForms);
       s.yield_every = rd.below(5);
       s.fresh_handle = rd.chance(20);
       if (s.fresh_handle && vh::excluded("F8"))
@@ -1182,13 +1529,21 @@ VH_TARGET(counter_threads, 6,
         vh::count_excluded("F8");
         s.fresh_handle = false;
       }
+      if (w.handles[s.handle]->deferred)
+        s.fresh_handle = true;
+      // the thread's own handle is released right after the step: destruction races the Adds of the
+      // other threads through other handles of the instrument, and the collections
+      s.drop_after = s.fresh_handle && rd.chance(40);
       if (s.fresh_handle)
         c.tag("handle-created-while-collectors-run");
+      if (s.drop_after)
+        c.tag("handle-destroyed-while-others-record-and-collect");
       progs[t].push_back(s);
       txt += "T" + std::to_string(t) + ": " + std::to_string(s.reps) + " x " +
              (s.fresh_handle ? "(new handle like h" + std::to_string(s.handle) + ")" : "h" + std::to_string(s.handle)) +
-             ".Add(" + show_units(s.units, kind) + ", " + sg::show_kvlist(s.attrs.list) + ") yield/" +
-             std::to_string(s.yield_every) + "\n";
+             ".Add(" + show_units(s.units, kind) + ", " + sg::show_kvlist(s.attrs.list) + ") as " +
+             add_form_name(s.form, s.attrs.list.empty()) + " yield/" + std::to_string(s.yield_every) +
+             (s.drop_after ? " then destroy the handle" : "") + "\n";
     }
   }
   for (unsigned t = 0; t < ncol; ++t)
@@ -1222,13 +1577,16 @@ VH_TARGET(counter_threads, 6,
       while (!go.load(std::memory_order_acquire))
         std::this_thread::yield();
       std::vector<std::unique_ptr<Handle>> own;
+      nostd::shared_ptr<om::Meter> my_m1;
       for (auto &s : progs[t])
       {
         Handle *h = w.handles[s.handle].get();
         int kind  = w.instrs[static_cast<size_t>(h->instr)].kind;
         if (s.fresh_handle)
         {
-          own.push_back(sdk_create(w, h->meter, h->instr));
+          if (h->meter == 1 && lazy_m1 && !my_m1)
+            my_m1 = w.provider->GetMeter(meter_name(1), "1.0", "");
+          own.push_back(sdk_create(w, h->meter, h->instr, h->meter == 1 && lazy_m1 ? my_m1.get() : nullptr));
           h = own.back().get();
           if (!(h->cl || h->cd || h->ul || h->ud))
           {
@@ -1242,6 +1600,8 @@ VH_TARGET(counter_threads, 6,
           if (s.yield_every && k % s.yield_every == 0)
             std::this_thread::yield();
         }
+        if (s.drop_after)
+          own.pop_back();
       }
     });
   for (unsigned t = 0; t < ncol; ++t)
@@ -1355,11 +1715,10 @@ VH_TARGET(counter_threads, 6,
             }
           }
         }
-        if (rep.n_md > 1)
-          st.dup = true;
-        if (rep.md && !st.dup)
-          check_times(c, w, s, st, *rep.md, delta, stepped, false, who);
-        else if (rep.n_md == 0)
+        VH_CHECK(c, rep.n_md <= 1, who << ": " << rep.n_md << " MetricData for this one stream in one collection");
+        if (rep.md)
+          check_times(c, w, s, st, *rep.md, delta, stepped, false, who, col.t0, col.t1);
+        else
           st.windows.emplace_back(col.t0, col.t1);
       }
     }
